@@ -88,7 +88,8 @@ CLAIMS = {
     "C09": dict(
         text=("Props/C09.lean: dependent_join_via_magic - evaluating a subquery once per distinct correlation value and joining back on that value equals nested evaluation per outer row, for duplicate and NULL "
               "correlation values (the identity behind decorrelation), and EXISTS as a semi join; join_back_not_distinct_sound (the plan with IS NOT DISTINCT FROM is that identity) and join_back_sql_eq_loses_null_rows "
-              "(the pinned commit joined back with `=` and lost outer rows with a NULL correlation value: F37, repaired). Tie: correlated EXISTS/NOT EXISTS/scalar aggregates/HAVING/two correlated columns/nesting depth 2 against Sem "
+              "(the pinned commit joined back with `=` and lost outer rows with a NULL correlation value: F37, repaired); not_in_eq_anti_join_without_nulls / not_in_anti_join_wrong_with_null (the anti-join plan for NOT IN is what "
+              "three-valued NOT IN means exactly when no NULL is involved: known finding F7). Tie: correlated EXISTS/NOT EXISTS/scalar aggregates/HAVING/two correlated columns/nesting depth 2 against Sem "
               "(which evaluates per outer row); CTEs (plain, MATERIALIZED, 1-3 references) and views against the inlined body; four known findings are probed on their specific inputs."),
         note=TB + "the theorem's join-back uses NULL-safe equality, as the repaired engine does; plan_subquery.rs itself is tied by the differential runs, not modelled rule by rule.",
         technique="Lean proof (magic-set decorrelation identity) + correlated-subquery differential against nested evaluation (Sem)",
